@@ -27,3 +27,26 @@ Proof. repeat split; vm_compute; reflexivity. Qed.
 (** the list of offenders, for the replay file when the theorem above stops computing to true *)
 Definition offenders : list (string * nat * string) :=
   map (fun f => (f_file f, f_line f, f_name f)) (filter (fun f => negb (audit_ok f)) api_table).
+
+(** ** the traits whose implementors the unchecked code trusts cannot be implemented outside the crate *)
+Definition trait_sealed (n : string) : bool := sealed api_trait t_name t_nameable t_supers 8 trait_table n.
+
+Theorem C17_traits_sealed_table : forallb (fun t => trait_sealed (t_name t)) trait_table = true.
+Proof. vm_compute. reflexivity. Qed.
+
+(** every trait declared in today's source requires (is, or has as a transitive supertrait) a trait that code outside the crate cannot name *)
+Theorem C17_traits_sealed : forall t, In t trait_table ->
+  exists m u, requires api_trait t_name t_supers trait_table (t_name t) m /\ lookup api_trait t_name trait_table m = Some u /\ t_nameable u = false.
+Proof.
+  intros t Hin. apply (sealed_sound api_trait t_name t_nameable t_supers 8).
+  exact (proj1 (forallb_forall _ trait_table) C17_traits_sealed_table t Hin).
+Qed.
+Print Assumptions C17_traits_sealed.
+
+Example C17_traits_nonvacuous :
+  Nat.leb 8 (List.length trait_table) = true /\ existsb t_nameable trait_table = true
+  /\ existsb (fun t => String.eqb (t_name t) "Pattern" && negb (t_nameable t) && Nat.leb 5 (t_safe_methods t)) trait_table = true.
+Proof. repeat split; vm_compute; reflexivity. Qed.
+
+Definition unsealed_traits : list (string * nat * string) :=
+  map (fun t => (t_file t, t_line t, t_name t)) (filter (fun t => negb (trait_sealed (t_name t))) trait_table).
